@@ -13,7 +13,7 @@ for d in sorted(glob.glob(os.path.join(ROOT, "seeded", "*"))):
     n += 1
     if res.startswith("CAUGHT"):
         caught += 1
-    elif res.startswith("MISSED at first") and "CAUGHT" in res:
+    elif res.startswith(("MISSED at first", "BROKEN at first", "MISSED by the quick tier")) and "CAUGHT" in res:
         later += 1
     elif re.search(r"CAUGHT by \./check C\d\d", res):
         other += 1
